@@ -1,5 +1,157 @@
-(* placeholder while the development is being built *)
-From PJ Require Import Base.Prelude Render.RText Render.RHtml Render.RJson Render.RModel Render.RGrammar Render.RSpec Render.RCheck.
-Example C19_placeholder : model_ok 0 (mk_cfg None false None) [] = true.
-Proof. vm_compute. reflexivity. Qed.
-Print Assumptions C19_placeholder.
+(* C19 - renderings show every task and dependency exactly once with its real dates.
+   Statement file: every theorem is closed by [exact] of a lemma proved under Render/.
+
+   render_gantt / render_net / render_json are the Gallina models of MermaidGantt.__src, MermaidNetwork.__src
+   and DhtmlxGantt.__data after the repairs of F22 (tie: byte equality with the implementation on every run);
+   extract_gantt / extract_net / extract_json are reference readers written independently of the builders
+   (Mermaid entity pre-pass + gantt line grammar, flowchart node chains, a JSON lexer and parser).  The domain
+   predicates wbs_ok (single-line names, four-digit years, numbers that print as JSON numbers, numeric estimate)
+   and cfg_ok (plain title / tick interval) are evaluated by the harness on every generated case. *)
+From Coq Require Import NArith ZArith List Bool Permutation String.
+From PJ Require Import Base.Prelude gen.Consts Render.RText Render.RHtml Render.RJson Render.RModel Render.RGrammar
+  Render.RSpec Render.RCheck Render.RUnrepaired Render.RProofsHtml Render.RProofsJson Render.RProofsDhtmlx
+  Render.RProofsNet Render.RProofsGantt Render.RProofsDoc Render.RProofsInject Render.RProofsC19.
+Import ListNotations.
+
+(* Mermaid gantt: the reader finds, in the order of the layout, one task line per task with its id, its start
+   and end to the minute, its state tags (milestone / done / active) and the section line it is under - for
+   every single-line task name and section name *)
+Theorem C19_gantt : forall clock cfg w, wbs_ok clock w = true -> cfg_ok cfg = true ->
+  extract_gantt (render_gantt clock cfg w) = Some (gantt_expected clock w).
+Proof. exact extract_render_gantt. Qed.
+
+(* the layout lists every task exactly once.  Proved for WBSs drawn without sections; with sections the tasks
+   are grouped by section in first-seen order (filter per distinct section) - that this regrouping is a
+   permutation of the tasks is stated, not proved *)
+Definition C19_gantt_each_task_once_statement : Prop :=
+  forall w, Permutation (map snd (gantt_layout (tasks_of w))) (tasks_of w).
+
+Theorem C19_gantt_each_task_once_partial : forall w, sectioned (tasks_of w) = false ->
+  map snd (gantt_layout (tasks_of w)) = tasks_of w.
+Proof. exact layout_unsectioned. Qed.
+
+(* Mermaid network: exactly one edge per dependency, one Start edge per task without predecessors, one style
+   statement per styled task *)
+Theorem C19_net : forall clock w, wbs_ok clock w = true -> extract_net (render_net w) = Some (net_expected w).
+Proof. exact c19_net. Qed.
+
+Theorem C19_net_count : forall t,
+  length (net_task_edges t) = match t_preds t with [] => 1%nat | ps => length ps end.
+Proof. exact c19_net_count. Qed.
+
+(* DHTMLX: the embedded text parses with the independent reader to one entry per task (id, name, dates, parent
+   id or 0, progress within 0..1) and one link per dependency, numbered without repetition; every task of the
+   WBS is visited exactly once; the text contains no less-than sign *)
+Theorem C19_json : forall clock w, wbs_ok clock w = true ->
+  extract_json (render_json clock w) = Some (json_expected clock w)
+  /\ NoDup (map jl_id (snd (json_expected clock w)))
+  /\ Forall (fun e => num_in_unit (je_progress e) = true) (fst (json_expected clock w))
+  /\ Permutation (tasks_of w) (map fst (dhtmlx_tasks w))
+  /\ has_char 60 (render_json clock w) = false.
+Proof. exact c19_json. Qed.
+
+(* text put into a task name: the reader finds the same gantt entries and the same edges as before; in the
+   DHTMLX data only the name field of the entries with that task's id changes, the links stay *)
+Theorem C19_inject : forall clock cfg w i nm, wbs_ok clock w = true -> cfg_ok cfg = true -> single_line nm = true ->
+  extract_gantt (render_gantt clock cfg (rename i nm w)) = extract_gantt (render_gantt clock cfg w)
+  /\ extract_net (render_net (rename i nm w)) = extract_net (render_net w)
+  /\ extract_json (render_json clock w) = Some (json_expected clock w)
+  /\ extract_json (render_json clock (rename i nm w))
+     = Some (map (rename_entry i nm) (fst (json_expected clock w)), snd (json_expected clock w)).
+Proof. exact c19_inject. Qed.
+
+Theorem C19_inject_other : forall i nm e, je_id e <> i -> rename_entry i nm e = e.
+Proof. exact rename_entry_other. Qed.
+
+(* the notebook representation is the HTML-escaped document: the srcdoc attribute decodes to to_html(),
+   whatever the document is (the wrapper literals are the ones of the source, RProofsDoc) *)
+Theorem C19_repr : forall pre post doc, pre = srcdoc_open -> hd 0%N post = 34%N ->
+  srcdoc_of (repr_html pre post doc) = Some doc.
+Proof. exact repr_roundtrip. Qed.
+
+Theorem C19_repr_escape : forall doc, unescape_html (escape_html doc) = doc.
+Proof. exact unescape_escape. Qed.
+
+(* the documents: the text of the Mermaid div decodes to the source and contains no tag; the JSON text runs up
+   to the closing script tag of the template *)
+Theorem C19_mermaid_div : forall after src, starts_with ([10%N] ++ div_close) after = true ->
+  unescape_html (until_sub div_close (escape_html src ++ after)) = src ++ [10%N]
+  /\ has_char 60 (until_sub div_close (escape_html src ++ after)) = false.
+Proof. exact mermaid_div_text. Qed.
+
+Theorem C19_dhtmlx_script : forall after data, has_char 60 data = false ->
+  until_sub script_close (data ++ after) = data ++ until_sub script_close after.
+Proof. exact dhtmlx_script_text. Qed.
+
+(* the source has the literals and the repairs the model has (gen/Consts.v, extracted on every run) *)
+Theorem C19_source_literals :
+  c19_gantt_text_prefix = gantt_guard /\ c19_gantt_text_suffix = []
+  /\ forall c, gantt_special c = has_char c c19_gantt_text_specials.
+Proof. exact gantt_text_is_the_source_one. Qed.
+
+Theorem C19_source_templates :
+  ends_with (div_open ++ [10%N]) c19_tpl_mgantt_before = true
+  /\ starts_with ([10%N] ++ div_close) c19_tpl_mgantt_after = true
+  /\ ends_with (div_open ++ [10%N]) c19_tpl_mnet_before = true
+  /\ starts_with ([10%N] ++ div_close) c19_tpl_mnet_after = true
+  /\ ends_with s_parse_open c19_tpl_dhtmlx_before = true
+  /\ until_sub script_close c19_tpl_dhtmlx_after = s_parse_close ++ [10%N; 10%N]
+  /\ contains_sub script_close c19_tpl_dhtmlx_after = true.
+Proof. exact templates_are_the_source_ones. Qed.
+
+(* before the repairs (F22): the builders that write names raw, on the three witnesses *)
+Theorem C19_refuted_net :
+  wbs_ok 0 w_arrow = true
+  /\ extract_net (old_render_net w_arrow)
+     = Some [EEdge (0, 41) (1, 125); EEdge (1, 125) (2, 125); EEdge (2, 125) (9, 125)]%N
+  /\ net_expected w_arrow = [EEdge (0, 41) (1, 125); EEdge (1, 125) (2, 125)]%N.
+Proof. exact old_net_refuted. Qed.
+
+Theorem C19_refuted_json :
+  wbs_ok 0 w_script = true
+  /\ script_oracle (old_render_json 0 w_script) = false
+  /\ parse_json (until_sub script_close (old_render_json 0 w_script)) = None.
+Proof. exact old_json_refuted. Qed.
+
+Theorem C19_refuted_gantt :
+  wbs_ok 0 w_semi = true /\ extract_gantt (old_render_gantt 0 (mk_cfg None false None) w_semi) = None.
+Proof. exact old_gantt_refuted. Qed.
+
+(* non-vacuity: a WBS with a hierarchy, a dependency, a milestone, two sections and a hostile name is in
+   the domain, and the readers find the demanded entries in its three texts *)
+Definition ex_name : text := Eval vm_compute in T "a""}} --> 9{{x</script><b>".
+Definition ex_clock : Z := 1704110400000000.      (* 2024-01-01 12:00 *)
+Definition ex_num (txt : text) (p : Z) : option num := Some (mk_num txt p 1).
+Definition ex_wbs : wbs :=
+  [ (0%nat, mk_task 1 [80%N] day0 day1 false None (ex_num [56%N] 8) (ex_num [52%N] 4) None [] None None None None []
+                    [48; 46; 53]%N);
+    (1%nat, mk_task 2 ex_name day0 day1 false (Some [68%N]) (ex_num [56%N] 8) (ex_num [52%N] 4) None [] (Some [81; 65; 58; 32; 120]%N)
+                    None None (Some [([102; 105; 108; 108], [35; 102; 57; 102])%N]) [] [48; 46; 53]%N);
+    (1%nat, mk_task 3 [77%N] day1 day1 true None (ex_num [48%N] 0) (ex_num [48%N] 0) None [(2%N, ex_name)] None None None None []
+                    []) ].
+Definition ex_cfg : gcfg := mk_cfg (Some [80; 108; 97; 110]%N) true None.
+
+Example C19_nonvacuous :
+  wbs_ok ex_clock ex_wbs = true /\ cfg_ok ex_cfg = true /\ single_line ex_name = true
+  /\ model_ok ex_clock ex_cfg ex_wbs = true
+  /\ length (gantt_expected ex_clock ex_wbs) = 3%nat /\ length (net_expected ex_wbs) = 4%nat
+  /\ length (fst (json_expected ex_clock ex_wbs)) = 3%nat /\ length (snd (json_expected ex_clock ex_wbs)) = 1%nat.
+Proof. vm_compute. repeat split; reflexivity. Qed.
+
+Print Assumptions C19_gantt.
+Print Assumptions C19_gantt_each_task_once_partial.
+Print Assumptions C19_net.
+Print Assumptions C19_net_count.
+Print Assumptions C19_json.
+Print Assumptions C19_inject.
+Print Assumptions C19_inject_other.
+Print Assumptions C19_repr.
+Print Assumptions C19_repr_escape.
+Print Assumptions C19_mermaid_div.
+Print Assumptions C19_dhtmlx_script.
+Print Assumptions C19_source_literals.
+Print Assumptions C19_source_templates.
+Print Assumptions C19_refuted_net.
+Print Assumptions C19_refuted_json.
+Print Assumptions C19_refuted_gantt.
+Print Assumptions C19_nonvacuous.
